@@ -83,7 +83,7 @@ def gen_fn_job(ch, jid, label, allow_stale_docs=False):
         documented = ch.shuffle(label + ".docshuf", names)
     if mode == "some" and ch.chance(label + ".someshuf", 0.4):
         documented = ch.shuffle(label + ".docshuf2", documented)
-    style = ch.weighted(label + ".style", [("rest", 3), ("google", 1), ("numpydoc", 1), ("rest_compact", COMPACT_W)])
+    style = ch.weighted(label + ".style", [("rest", 3), ("google", 1), ("numpydoc", 1), ("rest_compact", COMPACT_W), ("google_hanging", 0.5)])
     inline = ch.chance(label + ".inline", 0.6)
     kwonly = ch.chance(label + ".kwonly", 0.3)
     if kwonly and ch.chance(label + ".kwshuffle", 0.6):
@@ -121,7 +121,7 @@ def gen_fn_job(ch, jid, label, allow_stale_docs=False):
     src = render.render_function(desc, fname, ftype=ftype, inline_types=inline, kwonly=kwonly, documented=documented, style=style,
                                  body=["total = 0"] if ch.chance(label + ".body", 0.3) else None, extra_documented=extra_documented)
     truth = {"names": names + ([desc["kwargs"]] if desc.get("kwargs") else []),
-             "documented": documented, "style": style, "inline": inline, "ftype": ftype, "kwonly": kwonly,
+             "documented": documented, "style": {"google_hanging": "google", "rest_compact": "rest"}.get(style, style), "layout": style, "inline": inline, "ftype": ftype, "kwonly": kwonly,
              "params": {p["name"]: {"typ": p["typ"], "doc": p["doc"], "default": p["default"], "announces": bool(p.get("doc_announces_default")),
                                      "computed": bool(p.get("computed"))} for p in desc["params"]}}
     return {"id": jid, "kind": "parse_function", "src": src, "name": fname, "truth": truth,
@@ -334,7 +334,9 @@ def gen_wrap_job(ch, jid, label):
 
     # words that begin or end with punctuation (Sphinx roles, inline code, options, brackets): where the wrapper breaks
     # the line decides which of them starts a line
-    markup = [":class:`tf.data.Dataset`", ":func:`evaluate`", ":py:mod:`os.path`", "`axis=0`", "--verbose", "*weights", "(optional)", "e.g.,", "[batch,", "dim]", "x:y", "1."]
+    markup = [":class:`tf.data.Dataset`", ":func:`evaluate`", ":py:mod:`os.path`", "`axis=0`", "--verbose", "*weights", "(optional)", "e.g.,", "[batch,", "dim]", "x:y", "1.",
+              # words that end in a hyphen (suspended hyphens), a dash between blanks, a hyphenated word
+              "pre-", "32-", "-", "well-known"]
 
     def prose(lab, lo, hi):
         k = ch.int(lab, lo, hi)
